@@ -1114,6 +1114,263 @@ def long_record_case(long_seed, res, problems):
     del MUTATED[:]
 
 
+# ------------------------------------------------------------------ call sequences over look-alike time axes
+# Quantifier covered: "for all validation/future datasets ... any number of years ... [all] metrics" together with the
+# clause "computed from the right datasets": every data set of a call (obs and each debiaser of calculate_marginal_bias /
+# calculate_bias_days_metrics, the validation and the future period of the trend functions, each key of the conditional
+# exceedance) carries ITS OWN time axis, and the axes of one call / of consecutive calls may agree in everything a
+# summary of an axis could look at (length, first date, last date, entry type, even the array object, refilled in place)
+# while they differ in between (calendar with / without Feb 29 or the 31st, gaps, a different split into years).  The
+# cases above never had two different axes of the same length and start in one process, and took the time-scoped metrics
+# only with one validation and one future axis of random, different lengths.
+def gen_axis_family(rng, T):
+    """five sorted time axes of the SAME length T with the same first and the same last date that differ in between
+    -> [(label, [datetime.date])]: 'standard' (consecutive days, Feb 29 included when the start lies in a leap year),
+    'noleap' (consecutive, Feb 29 skipped), 'no31' (consecutive, the 31st of every month skipped: a 360-day model
+    calendar written with real dates), 'gaps' (random days in between), 'tail' (the consecutive days that END at the last date)"""
+    y = rng.choice(range(1952, 2080, 4)) + (0 if rng.random() < 0.75 else rng.randint(1, 3))
+    one = datetime.timedelta(days=1)
+    d0 = datetime.date(y, 1, 1) + rng.randint(0, 45) * one
+    S = T + rng.randint(40, 500)
+    d1 = d0 + S * one
+
+    def consecutive(skip):
+        out, d = [], d0
+        while len(out) < T - 1:
+            if not skip(d):
+                out.append(d)
+            d += one
+        return out + [d1]
+
+    fam = [
+        ("standard", consecutive(lambda d: False)),
+        ("noleap", consecutive(lambda d: (d.month, d.day) == (2, 29))),
+        ("no31", consecutive(lambda d: d.day == 31 and d != d0)),
+        ("gaps", [d0] + [d0 + n * one for n in sorted(rng.sample(range(1, S), T - 2))] + [d1]),
+        ("tail", [d0] + [d1 - (T - 2 - n) * one for n in range(T - 1)]),
+    ]
+    for _, a in fam:
+        assert len(a) == T and a[0] == d0 and a[-1] == d1 and all(p < q for p, q in zip(a, a[1:]))
+    return fam
+
+
+def as_time_array(dates, kind):
+    """the 1-d time array handed to the real code: python dates, python datetimes (noon) or numpy datetime64[D]"""
+    if kind == "datetime64":
+        return np.array([d.isoformat() for d in dates], dtype="datetime64[D]")
+    objs = [datetime.datetime(d.year, d.month, d.day, 12) for d in dates] if kind == "datetime" else list(dates)
+    a = np.empty(len(objs), dtype=object)
+    a[:] = objs
+    return a
+
+
+def scoped_instances(spec, x, dates):
+    """documented meaning of a time-scoped metric: every time step is compared with the threshold(s) of ITS day of the
+    year / month / season.  spec = (scope, type, table | (lower table, upper table)); dates are python dates"""
+    scope, kind, th = spec
+    g = [d.timetuple().tm_yday if scope == "day" else (d.month if scope == "month" else SEASON[d.month]) for d in dates]
+    col = lambda tbl: np.array([float(tbl[k_]) for k_ in g])[:, None, None]  # noqa: E731
+    if kind == "higher":
+        return x > col(th)
+    if kind == "lower":
+        return x < col(th)
+    if kind == "between":
+        return (x > col(th[0])) & (x < col(th[1]))
+    return (x < col(th[0])) | (x > col(th[1]))
+
+
+def time_axes_case(ax_seed, res, problems):
+    """One sequence of public calls with time-scoped metrics (day / month / season thresholds) in which the data sets carry
+    different time axes of the same length, first and last date (gen_axis_family).  Every returned array is compared with
+    the documented formula evaluated with the data set's own axis; the references are computed before the first call.
+    Real code + oracle only; the whole case is regenerated from ax_seed (replay)."""
+    from ibicus.evaluate import marginal, multivariate, trend
+    from ibicus.evaluate.metrics import ThresholdMetric
+
+    rng = random.Random(ax_seed)  # its own generator: the seed alone reproduces the sequence
+    I, J = rng.choice(GRIDS + [(2, 3)])
+    T = rng.randint(64, 110)
+    kind = rng.choice(["date", "date", "datetime", "datetime64"])
+    fam = gen_axis_family(rng, T)
+    rng.shuffle(fam)
+    dates = dict(fam)
+    order = [lab for lab, _ in fam]
+    tarr = {lab: as_time_array(a, kind) for lab, a in fam}
+    X = [np.array([[[rng.randint(32, 192) / 8.0 for _ in range(J)] for _ in range(I)] for _ in range(T)]) for _ in range(4)]
+    e = lambda: rng.randint(0, 3) / 8.0  # noqa: E731
+    lo, hi = 10.0, 18.0
+    # thresholds jump between neighbouring days / months / seasons: a time step judged with the group of another axis flips
+    t_day = {n: (lo if n % 2 else hi) + e() for n in range(1, 367)}
+    t_mlo = {n: (6.0 if n % 2 else 13.0) + e() for n in range(1, 13)}
+    t_mhi = {n: t_mlo[n] + 6.0 for n in range(1, 13)}
+    t_sea = {"Winter": lo + e(), "Spring": hi + e(), "Summer": lo + 1 + e(), "Autumn": hi + 1 + e()}
+    with warnings.catch_warnings():
+        warnings.simplefilter("ignore")
+        scoped = [
+            (ThresholdMetric(threshold_value=dict(t_day), threshold_type="higher", threshold_scope="day", name="by day"), ("day", "higher", t_day)),
+            (ThresholdMetric(threshold_value=[dict(t_mlo), dict(t_mhi)], threshold_type="between", threshold_scope="month", name="by month"),
+             ("month", "between", (t_mlo, t_mhi))),
+            (ThresholdMetric(threshold_value=dict(t_sea), threshold_type="lower", threshold_scope="season", name="by season"), ("season", "lower", t_sea)),
+        ]
+    # construction path from_quantile: built from a full year of data whose axis starts at the same date as the others;
+    # its thresholds are read from the object (from_quantile itself is not judged here), its evaluations are judged
+    qdates = [dates[order[0]][0] + datetime.timedelta(days=n) for n in range(366)]
+    qx = np.array([[[rng.randint(32, 192) / 8.0 for _ in range(J)] for _ in range(I)] for _ in range(366)])
+    built = call(ThresholdMetric.from_quantile, qx, 0.5, threshold_type="higher", threshold_scope="month", time=as_time_array(qdates, kind),
+                 name="by month (from_quantile)")
+    if built[0] == "ok" and isinstance(built[1].threshold_value, dict) and set(built[1].threshold_value) >= set(range(1, 13)):
+        scoped.append((built[1], ("month", "higher", {int(k_): float(v_) for k_, v_ in built[1].threshold_value.items()})))
+    mobjs = [m for m, _ in scoped]
+    case = {"what": "time axes", "relation": "time_axes_sequence", "ax_seed": ax_seed, "grid": [I, J], "T": T, "time_entry_type": kind,
+            "axes": {lab: [d.isoformat() for d in a] for lab, a in fam}, "data": {f"X{n}": x.tolist() for n, x in enumerate(X)},
+            "metrics": [{"name": m.name, "scope": s[0], "type": s[1], "thresholds": ([{str(k_): v_ for k_, v_ in t.items()} for t in s[2]]
+                                                                                    if isinstance(s[2], tuple) else {str(k_): v_ for k_, v_ in s[2].items()})}
+                        for m, s in scoped],
+            "note": "regenerated from ax_seed by harness.c20.time_axes_case; all axes have the same length, first and last date"}
+    seq = []
+    if res is not None:
+        res.count(("time_axes", I, J, T, kind, tuple(order), dates[order[0]][0].isoformat()), True)
+        res.extra["time_axes_cases"] = res.extra.get("time_axes_cases", 0) + 1
+
+    def problem(what, why):
+        problems.append((f"{what}: data sets on different time axes of the same length ({T}), first and last date: {why}",
+                         {**case, "what": what, "failing_call": seq[-1] if seq else None, "call_sequence": list(seq)}))
+
+    def prob(spec, x, lab):
+        return scoped_instances(spec, x, dates[lab]).sum(axis=0) / x.shape[0]
+
+    def days(spec, x, lab):
+        yrs = np.array([d.year for d in dates[lab]])
+        i_ = scoped_instances(spec, x, dates[lab])
+        return np.mean([i_[yrs == y_].sum(axis=0) for y_ in np.unique(yrs)], axis=0)
+
+    def nz(*arrs):
+        return all(np.all(np.abs(a) > 1e-6) for a in arrs)
+
+    def got(out, key, name, col="Bias"):
+        return out if out[0] == "raise" else ("ok", row(out[1], key, name, col))
+
+    def marginal_and_days(ax, bts=("absolute", "percentage"), with_days=True):
+        """obs = X0 on ax[0]; raw = X1 on ax[1]; bc = X2 on ax[2]; same = X1 (raw's data) on ax[3]; me = X0 on ax[0]"""
+        sets = (("raw", X[1], ax[1]), ("bc", X[2], ax[2]), ("same", X[1], ax[3]), ("me", X[0], ax[0]))
+        for bt in bts:
+            refs = {}
+            for m, spec in scoped:
+                pO = prob(spec, X[0], ax[0])
+                for key, x, lab in sets:
+                    p = prob(spec, x, lab)
+                    refs[(key, m.name)] = (365 * p - 365 * pO) if bt == "absolute" else (100 * (p - pO) / pO if nz(pO) else None)
+            seq.append(f"calculate_marginal_bias(obs=[X0, axis '{ax[0]}'], statistics=[], metrics=all, percentage_or_absolute='{bt}', "
+                       + ", ".join(f"{key}=[X{1 if x is X[1] else (2 if x is X[2] else 0)}, axis '{lab}']" for key, x, lab in sets) + ")")
+            out = call(marginal.calculate_marginal_bias, obs=[X[0], tarr[ax[0]]], statistics=[], metrics=mobjs, percentage_or_absolute=bt,
+                       **{key: [x, tarr[lab]] for key, x, lab in sets})
+            for (key, name), ref in refs.items():
+                why = differs(got(out, key, name), ref, 365.0 if bt == "absolute" else 100.0)
+                if why:
+                    problem("calculate_marginal_bias", f"{bt} bias of the metric '{name}' for '{key}': {why}")
+                if key == "me" and ref is not None and out[0] == "ok" and row(out[1], key, name) is not None and not np.all(row(out[1], key, name) == 0):
+                    problem("calculate_marginal_bias", f"{bt} bias of the observations against themselves (same axis) is not 0 for '{name}'")
+        if not with_days:
+            return
+        refs = {}
+        for m, spec in scoped:
+            dO = days(spec, X[0], ax[0])
+            for key, x, lab in sets:
+                dC = days(spec, x, lab)
+                refs[(key, m.name)] = {"CM": dC, "Obs": dO, "Bias": dC - dO}
+        seq.append(f"calculate_bias_days_metrics(obs_data=[X0, axis '{ax[0]}'], metrics=all, "
+                   + ", ".join(f"{key}=[X{1 if x is X[1] else (2 if x is X[2] else 0)}, axis '{lab}']" for key, x, lab in sets) + ")")
+        out = call(marginal.calculate_bias_days_metrics, obs_data=[X[0], tarr[ax[0]]], metrics=mobjs, **{key: [x, tarr[lab]] for key, x, lab in sets})
+        for (key, name), d_ in refs.items():
+            for col, ref in d_.items():
+                why = differs(got(out, key, name, col), ref, 10.0)
+                if why:
+                    problem("calculate_bias_days_metrics", f"column {col} of the metric '{name}' for '{key}' "
+                            f"({len(set(d.year for d in dates[dict((k_, l_) for k_, _, l_ in sets)[key]]))} year(s)): {why}")
+
+    def trends(av, af, tts=("additive", "multiplicative")):
+        """validation data (X0 raw, X2 debiased) on axis av, future data (X1 raw, X3 debiased) on axis af"""
+        for tt in tts:
+            refs_tb, refs_t = {}, {}
+            for m, spec in scoped:
+                rV, rF, bV, bF = prob(spec, X[0], av), prob(spec, X[1], af), prob(spec, X[2], av), prob(spec, X[3], af)
+                if tt == "additive":
+                    refs_tb[m.name] = 100 * ((bF - bV) - (rF - rV)) / (rF - rV) if nz(rF - rV) else None
+                    refs_t[m.name] = bF - bV
+                else:
+                    refs_tb[m.name] = 100 * (bF / bV - rF / rV) / (rF / rV) if nz(bV, rV, rF) else None
+                    refs_t[m.name] = bF / bV if nz(bV) else None
+            use = [m for m in mobjs if refs_tb[m.name] is not None]
+            if use:
+                seq.append(f"calculate_future_trend_bias(raw_validate=X0, raw_future=X1, statistics=[], trend_type='{tt}', metrics={[m.name for m in use]}, "
+                           f"time_validate=axis '{av}', time_future=axis '{af}', bc=[X2, X3], same=[copy of X0, copy of X1])")
+                out = call(trend.calculate_future_trend_bias, raw_validate=X[0], raw_future=X[1], statistics=[], trend_type=tt, metrics=use,
+                           time_validate=tarr[av], time_future=tarr[af], bc=[X[2], X[3]], same=[X[0].copy(), X[1].copy()])
+                for m in use:
+                    why = differs(got(out, "bc", m.name), refs_tb[m.name], 100.0)
+                    if why:
+                        problem("calculate_future_trend_bias", f"{tt} trend bias of the metric '{m.name}': {why}")
+                    if out[0] == "ok" and (row(out[1], "same", m.name) is None or not np.all(row(out[1], "same", m.name) == 0)):
+                        problem("calculate_future_trend_bias", f"{tt} trend bias of the raw model against itself is not 0 for the metric '{m.name}'")
+            use = [m for m in mobjs if refs_t[m.name] is not None]
+            if use:
+                seq.append(f"calculate_future_trend(statistics=[], trend_type='{tt}', metrics={[m.name for m in use]}, time_validate=axis '{av}', "
+                           f"time_future=axis '{af}', bc=[X2, X3])")
+                out = call(trend.calculate_future_trend, statistics=[], trend_type=tt, metrics=use, time_validate=tarr[av], time_future=tarr[af],
+                           bc=[X[2], X[3]])
+                for m in use:
+                    why = differs(got(out, "bc", m.name), refs_t[m.name], 1.0)
+                    if why:
+                        problem("calculate_future_trend", f"{tt} trend of the metric '{m.name}': {why}")
+
+    def chis(ax):
+        """the same pair of data sets (X0, X1) under one key per axis"""
+        for (m1, s1), (m2, s2) in ((scoped[1], scoped[2]), (scoped[0], scoped[0]), (scoped[-1], scoped[1])):
+            refs = {}
+            for lab in ax:
+                a_, b_ = scoped_instances(s1, X[0], dates[lab]), scoped_instances(s2, X[1], dates[lab])
+                if np.all(b_.sum(axis=0) > 0):
+                    refs[lab] = 100.0 * (a_ & b_).sum(axis=0) / b_.sum(axis=0)
+            if not refs:
+                continue
+            seq.append(f"calculate_conditional_joint_threshold_exceedance('{m1.name}', '{m2.name}', "
+                       + ", ".join(f"{lab}=[X0, X1, axis '{lab}']" for lab in refs) + ")")
+            out = call(multivariate.calculate_conditional_joint_threshold_exceedance, m1, m2, **{lab: [X[0], X[1], tarr[lab]] for lab in refs})
+            for lab, ref in refs.items():
+                if out[0] == "ok":
+                    sel = out[1][out[1]["Correction Method"] == lab]["Conditional exceedance probability"]
+                    g_ = ("ok", np.asarray(sel.iloc[0], dtype=float) if len(sel) else None)
+                else:
+                    g_ = out
+                why = differs(g_, ref, 100.0)
+                if why:
+                    problem("calculate_conditional_joint_threshold_exceedance", f"P('{m1.name}' | '{m2.name}') in percent for the key '{lab}': {why}")
+
+    a = order
+    tt2 = ("additive", "multiplicative") if ax_seed % 2 else ("multiplicative", "additive")
+    marginal_and_days(a[:4])
+    trends(a[0], a[1])
+    trends(a[2], a[3], tt2[:1])
+    chis(a)
+    rev = a[::-1]  # the same metric objects, the axes met in the opposite order and in other roles
+    trends(rev[0], rev[1], tt2[1:])
+    marginal_and_days(rev[:4], bts=("percentage",))
+    # one caller-held time array refilled in place between the calls (same object, same length, new dates)
+    buf = tarr[a[4]].copy()
+    tarr["buffer"] = buf
+    for n_, lab in enumerate((a[4], a[1], a[0])):
+        buf[...] = tarr[lab]
+        dates["buffer"] = dates[lab]
+        seq.append(f"the caller's time array 'buffer' is (re)filled in place with axis '{lab}'")
+        marginal_and_days([a[2], "buffer", a[3], "buffer"], bts=("absolute",), with_days=(n_ == 1))
+        trends("buffer", a[3], tt2[n_ % 2:n_ % 2 + 1])
+    for fname, lab in MUTATED:
+        problem(fname, f"the call modified the caller's argument passed as '{lab}'")
+    del MUTATED[:]
+    for fname, name, before, now in defaults_changed():
+        problem(fname, f"the default argument `{name}` changed from {before} to {now}")
+
+
 def rmse_case(k, rng, lines, expect, res):
     """correlation.rmse_spatial_correlation_distribution vs the model's exact covariances (sqrt / mean done in float here)"""
     from ibicus.evaluate import correlation
@@ -1183,6 +1440,9 @@ def run(tier, res, force_search=False):
         "unchanged and repeated calls identical (Python object aliasing and mutable defaults; the model's functions are pure), independence of "
         "logger verbosity / print options (process state), integer width of the instance counts (the model counts in unbounded Int; "
         "Props.C20.record_length_independent states the value-level fact), inf-vs-NaN row dropping and float rounding at a zero denominator",
+        "time-scoped metrics (day / month / season thresholds) are decided by the oracle on the real code: time_axes_case runs call sequences in "
+        "which every data set carries its own time axis and the axes share length, first and last date, entry type (date | datetime | datetime64) "
+        "and, for one of them, the array object (refilled in place); the reference takes each time step with the threshold of its own day / month / season",
         "rows of the returned frames are in the order debiaser (keyword order) x statistics x metrics; the positional oracle uses metric lists whose names collide (default names, same name, same object twice)",
     ]
 
@@ -1201,6 +1461,12 @@ def run(tier, res, force_search=False):
         run_case(k, rng, tier, batch, res, problems, n_oracle)
     for k in range(1 if tier == "quick" else 3):
         long_record_case(C.seed() * 9973 + 2020 + k, res, problems)
+    import time as _time
+
+    t_ax = _time.time()
+    for k in range((3 if tier == "quick" else 24) * (3 if (force_search or not lean_ok) else 1)):
+        time_axes_case(C.seed() * 9973 + 20200 + k, res, problems)
+    res.extra["time_axes_wall_s"] = round(_time.time() - t_ax, 2)
     rl, rex = [], []
     for k in range(4 if tier == "quick" else 40):
         rmse_case(k, rng, rl, rex, res)
@@ -1277,6 +1543,12 @@ def replay(data):
     if fi.get("relation") == "long_record":
         probs = []
         long_record_case(fi["long_seed"], None, probs)
+        for p, _ in probs[:10]:
+            print("REPRODUCED:", p)
+        return 1 if probs else 0
+    if fi.get("relation") == "time_axes_sequence":
+        probs = []
+        time_axes_case(fi["ax_seed"], None, probs)
         for p, _ in probs[:10]:
             print("REPRODUCED:", p)
         return 1 if probs else 0
